@@ -194,6 +194,9 @@ def oracle_wide(case, rec):
         args = stubs.make_args(interaction_order=4, combination_number_upper_bound=2**15, heuristic='MI-numba-randomized')
         stubs.reset_globals()
         out = cr.compute_combined_features(df, args, stubs.PBar())
+        if 'a AND b AND c AND d' not in out.columns:
+            raise Violation(f'order-4 interaction of columns a, b, c, d (in frame order) is not named "a AND b AND c AND d": '
+                            f'columns {list(out.columns)}', kind='C10/names')
         nd, nt_ = int(out['a AND b AND c AND d'].nunique()), len(set(rows))
         rec.nt(True, key=case)
         rec.cls('order4-wide-space')
@@ -221,6 +224,7 @@ def oracle_wide(case, rec):
 KINDS = ['C10/interaction', 'C10/originals', 'C10/columns', 'C10/iff', 'C10/score']
 ORACLES = {k: oracle for k in KINDS}
 ORACLES['C10/wide-digest'] = oracle_wide
+ORACLES['C10/names'] = oracle_wide
 
 
 def run(ctx):
